@@ -91,8 +91,28 @@ theorem updN_other (f : Fin N → Nat) {i j : Fin N} (v : Nat) (h : j ≠ i) : u
 def cfg (c0 : RQJ.Config) (s : CSys N) (i : Fin N) : RQJ.Config := cfgAt c0 (s.base.nodes i).log (s.applied i)
 
 /-- what the leader appends for a proposed payload `v`: the conf-change gate of `stepLeader` -/
-def gate (s : CSys N) (i : Fin N) (v : Nat) : Nat :=
-  if isConfData v && decide (s.applied i < s.pend i) then 0 else v
+def gateB (applied pend v : Nat) : Nat :=
+  if isConfData v && decide (applied < pend) then 0 else v
+
+def gate (s : CSys N) (i : Fin N) (v : Nat) : Nat := gateB (s.applied i) (s.pend i) v
+
+/-- the loop of `stepLeader` over the entries of ONE proposal message (`pendingConfIndex = lastIndex + i + 1` for an accepted conf
+    change): the payloads that are appended and the final `pendingConfIndex`. Compared with `RawNode` by the `GT` lines of the
+    lock-step driver; one payload is what `cPropose` does (`gateSeq_single`). -/
+def gateSeq (applied : Nat) : Nat → Nat → List Nat → List Nat × Nat
+  | pend, _, [] => ([], pend)
+  | pend, last, v :: vs =>
+    let v' := gateB applied pend v
+    let r := gateSeq applied (if isConfData v' then last + 1 else pend) (last + 1) vs
+    (v' :: r.1, r.2)
+
+theorem gateSeq_single (applied pend last v : Nat) :
+    gateSeq applied pend last [v] = ([gateB applied pend v], if isConfData (gateB applied pend v) then last + 1 else pend) := rfl
+
+/-- the guard of `hup` as a function of what the lock-step driver is shown (`HP` lines): not leader, a voter of its own configuration,
+    no conf-change entry among the entries in `(applied, committed]` -/
+def campaignGate (isLeader : Bool) (id : Nat) (c : RQJ.Config) (pending : List Bool) : Bool :=
+  !isLeader && decide (id ∈ c.voters) && !(pending.any fun b => b)
 
 def cBecomeLeader (s : CSys N) (i : Fin N) (Q : Finset (Fin N)) : CSys N :=
   { s with
